@@ -163,6 +163,8 @@ def obligations(tier, seed):
     qsub = [x for x in chosen if "/plain" in x[0] or "cte" in x[0] or x[0].startswith(("merge/", "update/"))]
     if tier == "quick":
         qsub = rnd.sample(qsub, min(len(qsub), 40))
+    else:
+        qsub = rnd.sample(qsub, min(len(qsub), 90))     # x 3 dialects (sized by wall time)
     for k, st in qsub:
         sql = gen.Renderer().stmt(st)
         slots = list(dict.fromkeys(m.lower() for m in PLACEHOLDER.findall(sql)))
@@ -174,7 +176,7 @@ def obligations(tier, seed):
             obs.append(TwinOb("quote", name, None, d, quote_slots(sql, slots, d), 5, seed, sql=sql))
             obs.append(TwinOb("quote_schema_only", name, None, d, quote_slots(sql, [s for s in slots if s[2] == "s"], d), 5, seed, sql=sql))
         obs.append(CaseOb(name, None, "ansi", 5, seed, sql=sql))
-    lsub = chosen if tier == "thorough" else rnd.sample(chosen, min(len(chosen), 50))
+    lsub = rnd.sample(chosen, min(len(chosen), 200 if tier == "thorough" else 50))
     # a scalar subquery inside an expression is re-analysed from its TEXT: layout noise inside it always takes part
     lsub = lsub + [x for x in tpl if "scalar" in x[0] and x not in lsub]
     for k, st in lsub:
